@@ -72,15 +72,15 @@ def replay_search(rec, verbose=False):
 
 def run_c05(prop, tier):
     t0 = time.time()
-    lists = [("limits", 16, []), ("stops", 48, []), ("history", 32, []), ("poison", 32, [])]
+    lists = [("limits", 16, []), ("stops", 48, []), ("history", 32, []), ("poison", 32, []), ("book", 1, [])]   # book: one shard (its book files are shared)
     merged = driver.merge(driver.run_jobs(prop, tier, _search_jobs(prop, tier, lists), env=_asan_env()))
     return driver.finish(prop, tier, MC, merged, t0,
                          rule="every session of the lists (limits x searchmoves; stop injected at EVERY node visit k; session histories incl. stopped first searches; "
-                              "single-entry table poisoning at every key probed at ply<=2): exactly one bestmove, legal per refchess, inside searchmoves, every pv a legal line, no sanitizer report",
+                              "single-entry table poisoning at every key probed at ply<=2; an opening book configured that does / does not contain the position x both sampling policies x limit kinds): exactly one bestmove, legal per refchess, inside searchmoves, every pv a legal line, no sanitizer report",
                          assumptions=["real Uci::loop in a forked child per session (ASan + bounds-strict build), seeded zobrist tables, virtual clock",
                                       "poison entries restricted to values TTable::insert can have stored for some position (no +-VALUE_INFINITE)",
                                       "time-outs can only take effect at polls, a subset of the enumerated stop points"],
-                         guards=[("sessions", 1000), ("pv_lines", 1000), ("stop_families", 10), ("poison_keys", 3)],
+                         guards=[("sessions", 1000), ("pv_lines", 1000), ("stop_families", 10), ("poison_keys", 3), ("book_hit_sessions", 100), ("book_move_played", 100), ("book_miss_sessions", 50)],
                          replay_fn=replay_search,
                          technique="exhaustive enumeration of UCI sessions x stop points x table faults on the real search, oracle = reference rules model")
 
